@@ -10,6 +10,7 @@ import (
 	"io"
 	"net/http"
 	"os"
+	"sort"
 	"strings"
 	"testing"
 	"time"
@@ -495,6 +496,47 @@ func c22Scenarios(r *vrt.R) []mcx.Scenario {
 		add("handler/stream/cap1/2requests", 0, c22HandlerLoadBody(1, []int{1, 1}, false), c22HandlerLoadCheck)
 	}
 	r.Set("preemption_bound", fmt.Sprint(b))
+	if only := os.Getenv("C22_ONLY"); only != "" { // development aid: restrict to scenarios whose name contains the value
+		var f []mcx.Scenario
+		for _, sc := range scs {
+			if strings.Contains(sc.Name, only) {
+				f = append(f, sc)
+			}
+		}
+		return f
+	}
+	return c22Balance(scs)
+}
+
+// c22Balance orders the scenarios for mcx's round-robin sharding (scenario i runs in worker i mod 16): the scenarios
+// with the largest schedule spaces get a worker of their own, the small ones share.
+func c22Balance(scs []mcx.Scenario) []mcx.Scenario {
+	weight := func(s *mcx.Scenario) int {
+		w := 1
+		for i := 0; i < s.Cfg.Bound; i++ {
+			w *= 12
+		}
+		switch {
+		case strings.Contains(s.Name, "4callers"), strings.Contains(s.Name, "3callers-x2"), strings.Contains(s.Name, "handler/stream"):
+			w *= 20
+		case strings.Contains(s.Name, "3callers"), strings.Contains(s.Name, "3requests"), strings.Contains(s.Name, "gzip+br+zstd"):
+			w *= 8
+		}
+		if strings.HasPrefix(s.Name, "codec/") || strings.HasPrefix(s.Name, "handler/") {
+			w *= 3
+		}
+		return w
+	}
+	sort.SliceStable(scs, func(i, j int) bool { return weight(&scs[i]) > weight(&scs[j]) })
+	n := 16
+	if len(scs) <= n {
+		return scs
+	}
+	// the n heaviest, lightest of them first, then the rest heaviest first: worker k gets scs[k] and scs[k+n]
+	head := scs[:n]
+	for i, j := 0, n-1; i < j; i, j = i+1, j-1 {
+		head[i], head[j] = head[j], head[i]
+	}
 	return scs
 }
 
@@ -593,16 +635,22 @@ func TestVerif_C22(t *testing.T) {
 			}
 			switch {
 			case i < len(ws): // witnesses first: they are the slowest single cases
+				t0 := time.Now()
 				c22RunWitness(r, &ws[i])
+				r.AddMap("seq_wall_ms_by_kind", "witness/"+ws[i].Kind, time.Since(t0).Milliseconds())
 			case i < len(ws)+len(hs):
 				cs := &hs[i-len(ws)]
+				t0 := time.Now()
 				c22RunSeqH(r, cs)
+				r.AddMap("seq_wall_ms_by_kind", "handler/"+cs.BodyN, time.Since(t0).Milliseconds())
 				if i%997 == 0 {
 					r.Sample(cs)
 				}
 			default:
 				cs := &ps[i-len(ws)-len(hs)]
+				t0 := time.Now()
 				c22RunSeqP(r, cs)
+				r.AddMap("seq_wall_ms_by_kind", "codec/"+cs.BodyN, time.Since(t0).Milliseconds())
 				if i%997 == 0 {
 					r.Sample(cs)
 				}
